@@ -130,3 +130,14 @@ func (e *WAs) As(target interface{}) bool {
 	}
 	return false
 }
+
+// WNoCmp is a prefix-style wrapper with Unwrap; a value type that is not
+// comparable (it holds a slice).
+type WNoCmp struct {
+	Msg  string
+	Err  error
+	Junk []int
+}
+
+func (e WNoCmp) Error() string { return e.Msg + ": " + e.Err.Error() }
+func (e WNoCmp) Unwrap() error { return e.Err }
